@@ -107,4 +107,4 @@ Ltac ks_expose :=
   cbn [map sumR nth];
   unfold Q2R; cbn [Qnum Qden].
 
-Ltac ks_close := ks_expose; interval with (i_prec 90).
+Ltac ks_close := ks_expose; first [ interval | interval with (i_prec 90) ].
